@@ -28,6 +28,12 @@ def run(chk, ctx) -> None:
     _order(chk, ctx)
     from .cover import showing_components
     showing_components(chk, ctx)
+    # "all hole cards to be shown": a card counts as shown only when both its rank and its suit are known
+    from .helpers import Refile, known_card_helpers
+    known_card_helpers(chk, ctx, 'C12.tournament')
+    # the player who showed or mucked - the one named, when one is named - is the one who leaves the queue of players still to show
+    from .c08 import _applies_to, discovered
+    _applies_to(Refile(chk, {'C08.applies_to': 'C12.order'}, only=lambda r, c: c == 'State.show_or_muck_hole_cards'), ctx, discovered(ctx))
 
 
 def _default(chk, ctx) -> None:
